@@ -245,6 +245,17 @@ fn txin_of(m: &MIn) -> Option<TxIn> {
     Some(TxIn::new(&m.txid, m.vout, &Script::from_bytes(&m.script).ok()?, Some(m.seq)))
 }
 
+/// The three memo slots as the verification hook shows them; all empty when the harness was built without that hook
+/// (`--cfg bsv_verif_no_hashcache`, the fallback `check` takes when a refactor of the library stops the accessor from compiling).
+#[cfg(not(bsv_verif_no_hashcache))]
+fn slots_of(tx: &Transaction) -> [Option<Vec<u8>>; 3] {
+    tx.verif_hash_cache()
+}
+#[cfg(bsv_verif_no_hashcache)]
+fn slots_of(_tx: &Transaction) -> [Option<Vec<u8>>; 3] {
+    [None, None, None]
+}
+
 fn expected_slots(bytes: &[u8]) -> Option<[Vec<u8>; 3]> {
     // what a history-free object computes for the three memo slots
     let mut fresh = Transaction::from_bytes(bytes).ok()?;
@@ -254,7 +265,7 @@ fn expected_slots(bytes: &[u8]) -> Option<[Vec<u8>; 3]> {
         return Some([hi, vec![], vec![]]);
     }
     fresh.sighash_preimage(SigHash::InputsOutputs, 0, &Script::default(), 0).ok()?;
-    let s = fresh.verif_hash_cache();
+    let s = slots_of(&fresh);
     Some([s[0].clone()?, s[1].clone()?, s[2].clone()?])
 }
 
@@ -728,6 +739,41 @@ impl Scenario for TxHistory {
                 };
             }
 
+            // the same call on the live object and on its history-free twin: a panic is an outcome like Ok and Err, and C04 only
+            // asks that the two agree (whether an out-of-range index may panic is not its business)
+            macro_rules! pair {
+                ($label:expr, $live:expr, $fresh:expr) => {{
+                    let a = guard(|| $live);
+                    let b = guard(|| $fresh);
+                    match (a, b) {
+                        (Ok(x), Ok(y)) => (x, y),
+                        (Err(_), Err(_)) => {
+                            ctx.probe("live_and_fresh_object_panicked_alike");
+                            ctx.observe_str("panic");
+                            continue;
+                        }
+                        (Err(p), Ok(_)) | (Ok(_), Err(p)) => {
+                            if ctx.violate("mismatch", format!("mismatch:{}-outcome one side panicked", $label), format!("{} panicked at {} ({}) on only one of the live object and its freshly parsed copy", $label, p.site, p.msg)) {
+                                return;
+                            }
+                            continue;
+                        }
+                    }
+                }};
+            }
+            // calls whose panics are nobody's verdict here (read-only accessors on possibly empty lists)
+            macro_rules! quiet {
+                ($e:expr) => {
+                    match guard(|| $e) {
+                        Ok(v) => Some(v),
+                        Err(_) => {
+                            ctx.probe("note:read_only_call_panicked");
+                            None
+                        }
+                    }
+                };
+            }
+
             match op.as_str() {
                 "add_input" | "prepend_input" | "insert_input" | "set_input" => {
                     let (mut txin, mut min) = match ev.get("txin").and_then(mk_txin) {
@@ -965,7 +1011,7 @@ impl Scenario for TxHistory {
                         ctx.fault("fork");
                         ctx.probe("fork_applied");
                         let rb = returned.to_bytes().unwrap_or_default();
-                        let rs = returned.verif_hash_cache();
+                        let rs = slots_of(&returned);
                         new_obj = Some(Obj { tx: returned, model: objs[o].model.clone(), model_valid: objs[o].model_valid, last_mut: op.clone(), depth: objs[o].depth + 1, snap_bytes: rb, snap_slots: rs, expect: None, primed: objs[o].primed });
                     }
                 }
@@ -1024,8 +1070,7 @@ impl Scenario for TxHistory {
                     match op.as_str() {
                         "sighash" => {
                             let t = &mut objs[o].tx;
-                            let got = lib!("sighash_preimage", t.sighash_preimage(flag, idx, &sub, value));
-                            let want = lib!("sighash_preimage(fresh)", fresh.sighash_preimage(flag, idx, &sub, value));
+                            let (got, want) = pair!("sighash_preimage", t.sighash_preimage(flag, idx, &sub, value), fresh.sighash_preimage(flag, idx, &sub, value));
                             match (&got, &want) {
                                 (Ok(g), Ok(w)) => {
                                     ctx.observe(g);
@@ -1075,8 +1120,8 @@ impl Scenario for TxHistory {
                             };
                             let t = &mut objs[o].tx;
                             let (got, want) = match &kk {
-                                None => (lib!("sign", t.sign(&key, flag, idx, &sub, value)), lib!("sign(fresh)", fresh.sign(&key, flag, idx, &sub, value))),
-                                Some(k) => (lib!("sign_with_k", t.sign_with_k(&key, k, flag, idx, &sub, value)), lib!("sign_with_k(fresh)", fresh.sign_with_k(&key, k, flag, idx, &sub, value))),
+                                None => pair!("sign", t.sign(&key, flag, idx, &sub, value), fresh.sign(&key, flag, idx, &sub, value)),
+                                Some(k) => pair!("sign_with_k", t.sign_with_k(&key, k, flag, idx, &sub, value), fresh.sign_with_k(&key, k, flag, idx, &sub, value)),
                             };
                             match (got, want) {
                                 (Ok(g), Ok(w)) => {
@@ -1132,10 +1177,9 @@ impl Scenario for TxHistory {
                     let bytes = objs[o].tx.to_bytes().unwrap_or_default();
                     let last_mut = objs[o].last_mut.clone();
                     let t = &mut objs[o].tx;
-                    let got = lib!("hash_inputs", t.hash_inputs(flag));
-                    objs[o].primed = true;
-                    if let Ok(mut fresh) = Transaction::from_bytes(&bytes) {
-                        let want = lib!("hash_inputs(fresh)", fresh.hash_inputs(flag));
+                    if let Ok(Ok(mut fresh)) = guard(|| Transaction::from_bytes(&bytes)) {
+                        let (got, want) = pair!("hash_inputs", t.hash_inputs(flag), fresh.hash_inputs(flag));
+                        objs[o].primed = true;
                         ctx.observe(&got);
                         if got != want {
                             if ctx.violate("mismatch", format!("mismatch:hash_inputs flag={} after {}", flag_name(flag_b), last_mut), format!("hash_inputs({}) live={} fresh={}", flag_name(flag_b), hx(&got), hx(&want))) {
@@ -1151,33 +1195,33 @@ impl Scenario for TxHistory {
                     let t = &mut objs[o].tx;
                     match kind.as_str() {
                         "to_bytes" => {
-                            let _ = lib!("to_bytes", t.to_bytes());
+                            let _ = quiet!(t.to_bytes());
                         }
                         "get_id_hex" => {
-                            if let Ok(s) = lib!("get_id_hex", t.get_id_hex()) {
+                            if let Some(Ok(s)) = quiet!(t.get_id_hex()) {
                                 ctx.observe_str(&s);
                             }
                         }
                         "get_size" => {
-                            let _ = lib!("get_size", t.get_size());
+                            let _ = quiet!(t.get_size());
                         }
                         "get_outpoints" => {
-                            let _ = lib!("get_outpoints", t.get_outpoints());
+                            let _ = quiet!(t.get_outpoints());
                         }
                         "is_coinbase" => {
-                            let _ = lib!("is_coinbase", t.is_coinbase());
+                            let _ = quiet!(t.is_coinbase());
                         }
                         "to_json_string" => {
-                            let _ = lib!("to_json_string", t.to_json_string());
+                            let _ = quiet!(t.to_json_string());
                         }
                         "to_compact_bytes" => {
-                            let _ = lib!("to_compact_bytes", t.to_compact_bytes());
+                            let _ = quiet!(t.to_compact_bytes());
                         }
                         "get_input" => {
-                            let _ = lib!("get_input", t.get_input(0));
+                            let _ = quiet!(t.get_input(0));
                         }
                         "get_output" => {
-                            let _ = lib!("get_output", t.get_output(0));
+                            let _ = quiet!(t.get_output(0));
                         }
                         _ => {
                             let c = lib!("clone", t.clone());
@@ -1195,7 +1239,7 @@ impl Scenario for TxHistory {
                     ctx.probe("fork_applied");
                     let c = lib!("clone", objs[o].tx.clone());
                     let cb = c.to_bytes().unwrap_or_default();
-                    let cs = c.verif_hash_cache();
+                    let cs = slots_of(&c);
                     new_obj = Some(Obj { tx: c, model: objs[o].model.clone(), model_valid: objs[o].model_valid, last_mut: objs[o].last_mut.clone(), depth: objs[o].depth + 1, snap_bytes: cb, snap_slots: cs, expect: objs[o].expect.clone(), primed: objs[o].primed });
                 }
                 "restart" => {
@@ -1229,7 +1273,7 @@ impl Scenario for TxHistory {
                     }
                     // O5: whatever a restored object carries in its memo must be right for its contents (checked by O2 below
                     // like for every other object); whether it carries anything is the implementation's business
-                    if restored.verif_hash_cache().iter().any(|x| x.is_some()) {
+                    if slots_of(&restored).iter().any(|x| x.is_some()) {
                         ctx.probe("restored_object_carries_memo");
                     }
                     objs[o].tx = restored;
@@ -1270,7 +1314,7 @@ impl Scenario for TxHistory {
                         continue;
                     }
                 };
-                let slots = objs[k].tx.verif_hash_cache();
+                let slots = slots_of(&objs[k].tx);
                 if k != o {
                     // O4 isolation: nothing about an object that was not addressed may change
                     // (memo slots of another object may change - e.g. a shared cache that is maintained correctly - as long
@@ -1296,6 +1340,21 @@ impl Scenario for TxHistory {
                     if op == "read" && slots != objs[k].snap_slots {
                         // a read-only call may warm the memo (O2 judges what it put there)
                         ctx.probe("read_only_call_touched_memo");
+                    }
+                }
+                // behavioural probe that needs no hook: right after a mutator on an object that has seen a FORKID sighash, a clone
+                // of it (clones carry whatever memo there is) is asked for every FORKID flag and compared with a fresh parse
+                if k == o && is_mutator && objs[k].primed {
+                    ctx.probe("clone_probed_after_mutator");
+                    let mut twin = match guard(|| objs[k].tx.clone()) {
+                        Ok(t) => t,
+                        Err(_) => continue,
+                    };
+                    if let Ok(Some(what)) = guard(|| behaviour_differs(&mut twin, &bytes)) {
+                        let lm = objs[k].last_mut.clone();
+                        if ctx.violate("stale", format!("stale-memo-honoured after {}", lm), format!("right after `{}` a clone of object {} answers {} differently from a freshly parsed copy of the same serialisation", op, k, what)) {
+                            return;
+                        }
                     }
                 }
                 // O2 slot invariant: every filled slot equals what a history-free object computes
